@@ -30,7 +30,7 @@ BOUNDS = {
     "quick": "23 base formats x 5 parameter groups (frame size+clean area, frame rate, pixel aspect ratio, luma range, colour-difference range) x 1 coding mode (alternating), first 2 alternative headers, symbolic values of 8 bits (frame size 1..255 etc.); real levels: first alternative",
     "thorough": "first 12 alternative headers, symbolic values of 12 bits; real levels: first 6 alternatives",
 }
-OUTSIDE = "larger values; enum-valued parameters are those of the base format (enumerated through the 23 formats), not symbolic"
+OUTSIDE = "larger values; enum-valued parameters are enumerated (every single deviation from the base format and every colour primaries x matrix x transfer-function combination), not symbolic"
 ASSUMPTIONS = ["clean area is tied to the frame size (clean = frame, offsets 0) when the frame size is symbolic", "symbolic frame sizes are multiples of 4 (regular formats: valid for every chroma format and for field coding)"]
 STUBS = ["SymFile", "bytearray stand-ins"]
 BUDGET_S = {"quick": 600, "thorough": 3000}
@@ -55,6 +55,8 @@ def tasks(tier, seed):
         for gi, g in enumerate(GROUPS):
             for pcm in ((0, 1) if tier != "quick" else ((b + gi) % 2,)):
                 out.append({"id": "b%d %s pcm%d" % (b, g, pcm), "harness": "sym", "args": (b, g, pcm, nalt, bits)})
+    for b in _base_formats():
+        out.append({"id": "b%d enum-valued parameters" % b, "harness": "enums", "args": (b, 2 if tier == "quick" else 8)})
     out.append({"id": "real levels", "harness": "levels", "args": (1 if tier == "quick" else 6,)})
     return out
 
@@ -158,6 +160,25 @@ def build(task):
 
         return h
 
+    if task["harness"] == "enums":
+        base, nalt = task["args"]
+        cases = _enum_cases(base)
+
+        def he(ctx):
+            i = ctx.concretize(ctx.sym_int("case", 0, len(cases) - 1))
+            cf = _codec_features(base, i % 2, dict(cases[i]))
+            if not _regular(cf):
+                return "irregular format (outside the property)"
+
+            def mk(f=None):
+                return SymFile(f.getcells()) if f is not None else SymFile()
+
+            n = _check(cf, nalt, mk, lambda c, l, e=None: ctx.prove(c, l, e), lambda a, b, l: ctx.prove_eq(a, b, l), lambda l, e: ctx.fail(l, e))
+            ctx.prove(n >= 1, "at-least-one-header", [n])
+            return "case %d" % i
+
+        return he
+
     (nalt,) = task["args"]
     cases = _level_cases()
 
@@ -173,6 +194,36 @@ def build(task):
         return "level %d base %d: %d headers" % (level, base, n)
 
     return hl
+
+
+def _regular(cf):
+    """Frame size a multiple of the chroma subsampling (and of twice the vertical subsampling for field coding)."""
+    vp = cf["video_parameters"]
+    fmt = int(vp["color_diff_format_index"])
+    w, h = vp["frame_width"], vp["frame_height"]
+    hx = 2 if fmt in (1, 2) else 1
+    vy = 2 if fmt == 2 else 1
+    if int(cf["picture_coding_mode"]) == 1:
+        vy *= 2
+    return w % hx == 0 and h % vy == 0
+
+
+def _enum_cases(base):
+    """Deviations of the enum-valued parameters from the base format: every single value, and every combination of
+    colour primaries x matrix x transfer function."""
+    import vc2_data_tables as T
+
+    out = [()]
+    for key, E in (("color_diff_format_index", T.ColorDifferenceSamplingFormats), ("source_sampling", T.SourceSamplingModes)):
+        for v in E:
+            out.append(((key, v),))
+    for v in (True, False):
+        out.append((("top_field_first", v),))
+    for p in T.PresetColorPrimaries:
+        for m in T.PresetColorMatrices:
+            for t in T.PresetTransferFunctions:
+                out.append((("color_primaries_index", p), ("color_matrix_index", m), ("transfer_function_index", t)))
+    return out
 
 
 _LC = None
@@ -227,6 +278,14 @@ def replay(task, label, inputs, extra):
 
         over = _group_values(group, bits, symc)
         cf = _codec_features(base, pcm, over)
+    elif task["harness"] == "enums":
+        base, nalt = task["args"]
+        i = inputs.get("case", 0)
+        over = dict(_enum_cases(base)[i])
+        pcm = i % 2
+        cf = _codec_features(base, pcm, over)
+        if not _regular(cf):
+            return {"reproduced": False, "key": None, "detail": "irregular format"}
     else:
         level, base, profile, pcm = _level_cases()[inputs.get("case", 0)]
         nalt = task["args"][0]
